@@ -5,7 +5,7 @@
 From Coq Require Import ZArith List String Bool Reals.
 From Flocq Require Import Core.
 From Hexital Require Import Base.Prelude Base.Num Model.Candle Inst.RealInst Spec.Steppers
-  Proofs.SpecGeneric Proofs.SpecReal.
+  Proofs.SpecGeneric Proofs.SpecReal Proofs.SpecMore.
 Import ListNotations.
 Local Open Scope R_scope.
 
@@ -82,3 +82,13 @@ Theorem C04_position_independent :
   series O k nd (pre ++ cs) = (vs <- series O k nd cs ;; Ok (map (fun _ => VNone) pre ++ vs)).
 Proof. exact position_independent. Qed.
 Print Assumptions C04_position_independent.
+
+(* WMA: once the window is full, the reading is the rounded weighted mean with weights
+   period (newest) ... 1 (oldest) over period (period + 1) / 2 *)
+Theorem C04_wma_definition :
+  forall (p nd : Z) (s : state ROps) (x : R),
+  (0 < p)%Z -> full ROps p (push ROps p x (s_buf ROps s)) = true ->
+  exists s', wma_step ROps p nd s x =
+    Ok (@VNum ROps (rnd10 nd (wma_weighted p (push ROps p x (s_buf ROps s)) / (IZR (p * (p + 1)) / 2))), s').
+Proof. exact wma_definition. Qed.
+Print Assumptions C04_wma_definition.
